@@ -216,6 +216,49 @@ func runC13(tw *TraceWriter, id int, c *Case) {
 			again = "differs"
 		}
 	}()
+	// the caller's slice: a list built from items... must leave the slice alone - a second list built from the SAME slice
+	// renders like one built from a fresh slice
+	func() {
+		defer func() { recover() }()
+		var g *Node
+		Walk(variant[0], func(n *Node) {
+			if g == nil && n.K == "grp" && n.Name != "qual" {
+				g = n
+			}
+		})
+		if g == nil {
+			return
+		}
+		ctor := func(codes []jen.Code) *jen.Statement {
+			name := title(g.Name)
+			in := []reflect.Value{}
+			if g.Name == "custom" {
+				in = append(in, reflect.ValueOf(jen.Options{Open: g.Open, Close: g.Close, Separator: g.Sep, Multi: g.Multi}))
+			}
+			fn := reflect.ValueOf(pkgFuncs[name])
+			if !fn.IsValid() || !fn.Type().IsVariadic() {
+				return nil
+			}
+			in = append(in, reflect.ValueOf(codes))
+			return fn.CallSlice(in)[0].Interface().(*jen.Statement)
+		}
+		render := func(st *jen.Statement) string {
+			f := jen.NewFile("main")
+			f.NoFormat = true
+			f.Add(st)
+			r := renderFile(f)
+			return r.status + ":" + string(r.out)
+		}
+		shared := NewBuilder().Codes(g.Items)
+		if ctor(shared) == nil {
+			return
+		}
+		second := ctor(shared)
+		fresh := ctor(NewBuilder().Codes(g.Items))
+		if render(second) != render(fresh) && again == "same" {
+			again = "slice"
+		}
+	}()
 	vid, vnsep, framed := listProjection(rv.out, c)
 	tw.Emit(Rec{"ev": "c13", "id": id, "name": c.Name, "kinds": c.Kinds, "base": base[0], "variant": variant[0],
 		"idents": c.Idents, "nsep": c.Nsep, "rb": resRec(rb, fb), "rv": resRec(rv, fv),
